@@ -11,8 +11,10 @@ import (
 // occurrence: [pos, end) where pos is the offset at which this field's tag
 // started and end the offset after its value. That requires the loop-carried
 // trackers to be updated on EVERY iteration (for every field, lazy or not):
-//   end := start - len(b)   after the advance b = b[n:]
-//   pos = end ; lastNum = num   unconditionally at the end of the loop body
+//
+//	end := start - len(b)   after the advance b = b[n:]
+//	pos = end ; lastNum = num   unconditionally at the end of the loop body
+//
 // and the entry to be built from (num, pos, end), extended only when
 // num == lastNum.
 func (c *Ctx) ruleLazyIndex(rule string) {
